@@ -105,6 +105,12 @@ func (w *World) Step() {
 				w.termMax[p.UID] = w.Rng.IntN(w.Opts.MaxTerminateCycles + 1)
 			}
 		}
+		if p.Annotations[spec.RecreatedAnno] != "" && !w.recreated[p.UID] {
+			if w.recreated == nil {
+				w.recreated = map[types.UID]bool{}
+			}
+			w.recreated[p.UID] = true
+		}
 		if w.Opts.Closed && w.Opts.EarlyRecreate && !w.recreated[p.UID] && p.Namespace != spec.ReservationNS && p.Annotations["pod-group-name"] != "" &&
 			(w.Opts.PRecreateNow <= 0 || w.Rng.Float64() < w.Opts.PRecreateNow) {
 			w.recreate(p)
